@@ -118,6 +118,64 @@ Section FromPathCycleProofs.
     eapply kstep_kvalid; eassumption.
   Qed.
 
+  (* every parser task is about a visit of the enumeration below the root *)
+  Definition KTin (root : nat) (st : kstate) : Prop :=
+    forall t, In t (k_ptasks st) -> In (k_anc t, k_file t) (Wk [] root).
+
+  Lemma ktin_init : forall root, KTin root (kinit root).
+  Proof. intros root t [<-|[]]. cbn [k_anc k_file]. apply Wk_head_in. Qed.
+
+  Lemma tin_set_nth : forall root l t f anc s s', nth_error l t = Some (mkK f anc s) ->
+    (forall x, In x l -> In (k_anc x, k_file x) (Wk [] root)) ->
+    forall x, In x (set_nth l t (mkK f anc s')) -> In (k_anc x, k_file x) (Wk [] root).
+  Proof.
+    intros root l t f anc s s' N H x Hx. apply in_set_nth' in Hx. destruct Hx as [->|Hx]; [|auto].
+    apply (H _ (nth_error_In _ _ N)).
+  Qed.
+
+  Lemma kstep_tin : forall root l st st', In root univ -> KValid st -> KTin root st ->
+    kstep l st = Some st' -> KTin root st'.
+  Proof.
+    intros root l st st' Hr HV HT Hs. unfold KTin in *.
+    destruct l as [t|t|t|t|t| | | |c|c|c| ]; simpl in Hs.
+    - destruct (nth_error (k_ptasks st) t) as [[f anc []]|] eqn:N; try discriminate.
+      destruct (memn f anc) eqn:M; [|destruct (once && memn f (k_claimed st))]; injection Hs as <-;
+        cbn [k_ptasks kset_pfail kset_ptasks kset_claimed]; eapply tin_set_nth; eauto.
+    - destruct (nth_error (k_ptasks st) t) as [[f anc [|[|g rest]| | | | |]]|] eqn:N; try discriminate.
+      pose proof (HV _ (nth_error_In _ _ N)) as [V [M I]]. cbn [k_anc k_file k_st] in V, M, I.
+      injection Hs as <-. cbn [k_ptasks kset_ptasks]. intros x Hx. apply in_app_or in Hx.
+      destruct Hx as [Hx|[<-|[]]].
+      + revert x Hx. eapply tin_set_nth; eauto.
+      + cbn [k_anc k_file].
+        apply (Wk_closed inc univ Hclosed (length univ - length (@nil nat)) [] root (le_n _)).
+        * repeat split; [constructor|intros y []|exact Hr].
+        * apply (HT _ (nth_error_In _ _ N)).
+        * exact M.
+        * apply I. left. reflexivity.
+    - destruct (nth_error (k_ptasks st) t) as [[f anc [|[|g rest]| | | | |]]|] eqn:N; try discriminate.
+      destruct (bad f); injection Hs as <-; cbn [k_ptasks kset_pfail kset_ptasks]; eapply tin_set_nth; eauto.
+    - destruct (nth_error (k_ptasks st) t) as [[f anc [|[|g rest]| | | | |]]|] eqn:N; try discriminate.
+      destruct (dstat_eqb (k_disp st) DRecv); [|discriminate].
+      injection Hs as <-; cbn [k_ptasks kset_ctasks kset_ptasks]; eapply tin_set_nth; eauto.
+    - destruct (nth_error (k_ptasks st) t) as [[f anc [|[|g rest]| | | | |]]|] eqn:N; try discriminate.
+      destruct (k_pcancel st); [|discriminate].
+      injection Hs as <-; cbn [k_ptasks kset_ptasks]; eapply tin_set_nth; eauto.
+    - destruct (negb (k_synclosed st) && forallb ktask_terminal (k_ptasks st)); [|discriminate].
+      injection Hs as <-. exact HT.
+    - destruct (dstat_eqb (k_disp st) DRecv && k_synclosed st); [|discriminate]. injection Hs as <-. exact HT.
+    - destruct (dstat_eqb (k_disp st) DWait && forallb ctask_terminal (k_ctasks st)); [|discriminate].
+      injection Hs as <-. exact HT.
+    - destruct (nth_error (k_ctasks st) c) as [[f []]|]; try discriminate.
+      destruct (cbad f); injection Hs as <-; exact HT.
+    - destruct (nth_error (k_ctasks st) c) as [[f []]|]; try discriminate.
+      destruct (bstat_eqb (k_bld st) BRecv); [|discriminate].
+      destruct (abad f); injection Hs as <-; exact HT.
+    - destruct (nth_error (k_ctasks st) c) as [[f []]|]; try discriminate.
+      destruct (k_ccancel st); [|discriminate]. injection Hs as <-; exact HT.
+    - destruct (bstat_eqb (k_bld st) BRecv && dstat_eqb (k_disp st) DDone); [|discriminate].
+      injection Hs as <-. exact HT.
+  Qed.
+
   (* ---------------------------------------------------------------- termination measure *)
   (* every visit costs at most six steps: spawn, start, parsed, push (or observe), convert, push *)
   (* the number of visits strictly below (anc, f) *)
@@ -269,25 +327,43 @@ Section FromPathCycleProofs.
     end.
   Definition kfiles (t : ktask) : list nat := map snd (kpend t).
   Definition cycw (t : ktask) : nat := length (filter v_cyc (kpend t)).
+  (* the visits a task accounts for: the pending ones, or its own when it has been pushed *)
+  Definition tlen (t : ktask) : nat := match k_st t with KPushed => 1 | _ => length (kpend t) end.
   Definition kaddfail (es : list kwerr) : list nat :=
     flat_map (fun e => match e with KWAdd f => [f] | _ => [] end) es.
-  Definition pgenuine (e : kperr) : bool := kgenuine bad cbad abad (werr_of_perr e).
+  (* a recorded error names a stage function that did fail; an include cycle names the chain of a
+     visit below the root whose file is among its ancestors *)
+  Definition werr_ok (root : nat) (e : kwerr) : Prop :=
+    match e with
+    | KWParse f => bad f = true
+    | KWCycle c => exists anc f, c = anc ++ [f] /\ In (anc, f) (Wk [] root) /\ memn f anc = true
+    | KWConv f => cbad f = true
+    | KWAdd f => abad f = true
+    end.
+
+  Lemma werr_ok_genuine : forall root e, werr_ok root e -> kgenuine bad cbad abad e = true.
+  Proof.
+    intros root [f|c|f|f] H; simpl in *; auto. destruct H as (anc & f & -> & _ & M).
+    rewrite rev_app_distr. cbn [rev app]. rewrite memn_rev. exact M.
+  Qed.
   Definition is_add (e : kwerr) : bool := match e with KWAdd _ => true | _ => false end.
 
   Record KInv (root : nat) (st : kstate) : Prop := {
     Q_valid : KValid st;
+    Q_tin : KTin root st;
     Q_count : forall x,
       cnt (k_added st ++ kaddfail (k_werrs st) ++ flat_map cpend (k_ctasks st) ++
            flat_map kfiles (k_ptasks st)) x = cnt (map snd (Wk [] root)) x;
     Q_cyc : list_sum (map cycw (k_ptasks st)) = length (filter v_cyc (Wk [] root));
+    Q_len : list_sum (map tlen (k_ptasks st)) = length (Wk [] root);
     Q_closed : k_synclosed st = true -> forallb ktask_terminal (k_ptasks st) = true;
     Q_ddone : k_disp st = DDone -> forallb ctask_terminal (k_ctasks st) = true;
     Q_bdone : k_bld st = BDone -> k_disp st = DDone;
     Q_drain : k_disp st <> DRecv -> k_synclosed st = true;
     Q_bfail : k_bld st = BFail -> exists f, In (KWAdd f) (k_werrs st);
-    Q_perrs : forall e, In e (k_perrs st) -> pgenuine e = true;
+    Q_perrs : forall e, In e (k_perrs st) -> werr_ok root (werr_of_perr e);
     Q_cerrs : forall f, In f (k_cerrs st) -> cbad f = true;
-    Q_werrs : forall e, In e (k_werrs st) -> kgenuine bad cbad abad e = true;
+    Q_werrs : forall e, In e (k_werrs st) -> werr_ok root e;
     Q_pclean : k_perrs st = [] ->
       k_pcancel st = false /\ forall t, In t (k_ptasks st) -> k_st t <> KFail /\ k_st t <> KCancel;
     Q_noskip : forall t, In t (k_ptasks st) -> k_st t <> KSkip;
@@ -304,6 +380,7 @@ Section FromPathCycleProofs.
   Proof.
     intros root Hr. constructor; simpl; try discriminate; try contradiction; auto.
     - apply kvalid_init. exact Hr.
+    - apply ktin_init.
     - intros x. unfold kfiles, kpend. simpl. rewrite app_nil_r. reflexivity.
     - intros _. split; [reflexivity|]. intros t [<-|[]]. simpl. split; discriminate.
     - intros t [<-|[]]. simpl. discriminate.
@@ -331,10 +408,16 @@ Section FromPathCycleProofs.
 
   (* replacing a task by one that stands for the same visits changes neither census *)
   Lemma set_same_pend : forall l t v old, nth_error l t = Some old -> kpend v = kpend old ->
+    k_st v <> KPushed -> k_st old <> KPushed ->
     (forall x, cnt (flat_map kfiles (set_nth l t v)) x = cnt (flat_map kfiles l) x) /\
-    list_sum (map cycw (set_nth l t v)) = list_sum (map cycw l).
+    list_sum (map cycw (set_nth l t v)) = list_sum (map cycw l) /\
+    list_sum (map tlen (set_nth l t v)) = list_sum (map tlen l).
   Proof.
-    intros l t v old N E. split.
+    intros l t v old N E P1 P2. split; [|split].
+    3:{ pose proof (sum_set_nth_gen _ tlen _ _ v _ N) as S.
+        assert (T : tlen v = tlen old).
+        { unfold tlen. rewrite E. destruct (k_st v); try congruence; destruct (k_st old); congruence. }
+        rewrite T in S. lia. }
     - intros x. pose proof (cnt_set_nth_gen _ kfiles _ _ v _ x N) as S. unfold kfiles in S at 2 4.
       rewrite E in S. lia.
     - pose proof (sum_set_nth_gen _ cycw _ _ v _ N) as S. unfold cycw in S at 2 4. rewrite E in S. lia.
@@ -348,11 +431,12 @@ Section FromPathCycleProofs.
                     kset_bld kset_added kadd_werrs kset_synclosed].
   Ltac inset H := apply in_set_nth' in H; destruct H as [->|H].
 
-  Lemma kstep_kinv : forall root l st st', KInv root st -> kstep l st = Some st' -> KInv root st'.
+  Lemma kstep_kinv : forall root l st st', In root univ -> KInv root st -> kstep l st = Some st' -> KInv root st'.
   Proof.
-    intros root l st st' HI Hs.
+    intros root l st st' Hr HI Hs.
     assert (HV' : KValid st') by (eapply kstep_kvalid; [apply (Q_valid _ _ HI)|exact Hs]).
-    destruct HI as [Hvalid Hcount Hcyc Hclosed' Hddone Hbdone Hdrain Hbfail Hperrs Hcerrs Hwerrs Hpclean Hnoskip
+    assert (HT' : KTin root st') by (eapply kstep_tin; [exact Hr|apply (Q_valid _ _ HI)|apply (Q_tin _ _ HI)|exact Hs]).
+    destruct HI as [Hvalid Htin Hcount Hcyc Hlen Hclosed' Hddone Hbdone Hdrain Hbfail Hperrs Hcerrs Hwerrs Hpclean Hnoskip
                     Hcclean Hwparse Hwconv Hwopen Hwfirst].
     destruct l as [t|t|t|t|t| | | |c|c|c| ]; simpl in Hs.
     - (* KStart *)
@@ -361,24 +445,28 @@ Section FromPathCycleProofs.
       rewrite Honce in Hs. cbn [andb] in Hs.
       pose proof (Wk_unfold inc univ anc f V) as U.
       destruct (memn f anc) eqn:M; injection Hs as <-.
-      + destruct (set_same_pend _ _ (mkK f anc KFail) _ N) as [S1 S2].
+      + destruct (set_same_pend _ _ (mkK f anc KFail) _ N) as (S1 & S2 & S3);
+          [|cbn [k_st]; discriminate|cbn [k_st]; discriminate|].
         { unfold kpend. cbn [k_st k_anc k_file]. symmetry. exact U. }
         constructor; kred; auto.
         * intros x. rewrite <- (Hcount x). rewrite !count_occ_app, S1. reflexivity.
         * rewrite S2. exact Hcyc.
+        * rewrite S3. exact Hlen.
         * intros C. exfalso. apply (kterm_contra _ _ _ _ _ (Hclosed' C) N). reflexivity.
         * intros e He. apply in_app_or in He. destruct He as [He|[<-|[]]]; [auto|].
-          unfold pgenuine. cbn [werr_of_perr kgenuine]. rewrite rev_app_distr. cbn [rev app].
-          rewrite memn_rev. exact M.
+          cbn [werr_of_perr werr_ok]. exists anc, f. split; [reflexivity|]. split; [|exact M].
+          apply (Htin _ (nth_error_In _ _ N)).
         * intros Pe. destruct (k_perrs st); discriminate.
         * intros t' Ht'. inset Ht'; [cbn [k_st]; discriminate|auto].
         * intros _ C. exfalso. apply (kterm_contra _ _ _ _ _ (Hclosed' C) N). reflexivity.
         * intros C. exfalso. apply (kterm_contra _ _ _ _ _ (Hclosed' C) N). reflexivity.
-      + destruct (set_same_pend _ _ (mkK f anc (KParsing (inc f))) _ N) as [S1 S2].
+      + destruct (set_same_pend _ _ (mkK f anc (KParsing (inc f))) _ N) as (S1 & S2 & S3);
+          [|cbn [k_st]; discriminate|cbn [k_st]; discriminate|].
         { unfold kpend. cbn [k_st k_anc k_file]. symmetry. exact U. }
         constructor; kred; auto.
         * intros x. rewrite <- (Hcount x). rewrite !count_occ_app, S1. reflexivity.
         * rewrite S2. exact Hcyc.
+        * rewrite S3. exact Hlen.
         * intros C. exfalso. apply (kterm_contra _ _ _ _ _ (Hclosed' C) N). reflexivity.
         * intros Pe. destruct (Hpclean Pe) as [A B]. split; [exact A|].
           intros t' Ht'. inset Ht'; [cbn [k_st]; split; discriminate|auto].
@@ -400,6 +488,12 @@ Section FromPathCycleProofs.
         rewrite map_app, list_sum_app3. cbn [map]. rewrite list_sum_cons1, list_sum_nil1.
         unfold cycw at 2. unfold kpend. cbn [k_st k_anc k_file].
         destruct (v_cyc (anc, f)); cbn [length] in S; rewrite ?app_length in S; lia.
+      + rewrite <- Hlen.
+        pose proof (sum_set_nth_gen _ tlen _ _ (mkK f anc (KParsing rest)) _ N) as S.
+        unfold tlen in S at 2 4. unfold kpend in S. cbn [k_st k_anc k_file flat_map length] in S.
+        rewrite app_length in S.
+        rewrite map_app, list_sum_app3. cbn [map]. rewrite list_sum_cons1, list_sum_nil1.
+        unfold tlen at 2. unfold kpend. cbn [k_st k_anc k_file]. lia.
       + intros C. exfalso. apply (kterm_contra _ _ _ _ _ (Hclosed' C) N). reflexivity.
       + intros Pe. destruct (Hpclean Pe) as [A B]. split; [exact A|].
         intros t' Ht'. apply in_app_or in Ht'. destruct Ht' as [Ht'|[<-|[]]].
@@ -411,20 +505,22 @@ Section FromPathCycleProofs.
     - (* KParsed *)
       destruct (nth_error (k_ptasks st) t) as [[f anc [|[|g rest]| | | | |]]|] eqn:N; try discriminate.
       destruct (bad f) eqn:Bf; injection Hs as <-.
-      + destruct (set_same_pend _ _ (mkK f anc KFail) _ N) as [S1 S2]; [reflexivity|].
+      + destruct (set_same_pend _ _ (mkK f anc KFail) _ N) as (S1 & S2 & S3); [reflexivity|cbn [k_st]; discriminate|cbn [k_st]; discriminate|].
         constructor; kred; auto.
         * intros x. rewrite <- (Hcount x). rewrite !count_occ_app, S1. reflexivity.
         * rewrite S2. exact Hcyc.
+        * rewrite S3. exact Hlen.
         * intros C. exfalso. apply (kterm_contra _ _ _ _ _ (Hclosed' C) N). reflexivity.
         * intros e He. apply in_app_or in He. destruct He as [He|[<-|[]]]; [auto|]. exact Bf.
         * intros Pe. destruct (k_perrs st); discriminate.
         * intros t' Ht'. inset Ht'; [cbn [k_st]; discriminate|auto].
         * intros _ C. exfalso. apply (kterm_contra _ _ _ _ _ (Hclosed' C) N). reflexivity.
         * intros C. exfalso. apply (kterm_contra _ _ _ _ _ (Hclosed' C) N). reflexivity.
-      + destruct (set_same_pend _ _ (mkK f anc KRdy) _ N) as [S1 S2]; [reflexivity|].
+      + destruct (set_same_pend _ _ (mkK f anc KRdy) _ N) as (S1 & S2 & S3); [reflexivity|cbn [k_st]; discriminate|cbn [k_st]; discriminate|].
         constructor; kred; auto.
         * intros x. rewrite <- (Hcount x). rewrite !count_occ_app, S1. reflexivity.
         * rewrite S2. exact Hcyc.
+        * rewrite S3. exact Hlen.
         * intros C. exfalso. apply (kterm_contra _ _ _ _ _ (Hclosed' C) N). reflexivity.
         * intros Pe. destruct (Hpclean Pe) as [A B]. split; [exact A|].
           intros t' Ht'. inset Ht'; [cbn [k_st]; split; discriminate|auto].
@@ -443,6 +539,9 @@ Section FromPathCycleProofs.
         pose proof (sum_set_nth_gen _ cycw _ _ (mkK f anc KPushed) _ N) as S.
         unfold cycw in S at 2 4. unfold kpend in S. cbn [k_st k_anc k_file filter] in S.
         unfold v_cyc in S. cbn [fst snd] in S. rewrite M in S. cbn [length] in S. lia.
+      + rewrite <- Hlen.
+        pose proof (sum_set_nth_gen _ tlen _ _ (mkK f anc KPushed) _ N) as S.
+        unfold tlen in S at 2 4. unfold kpend in S. cbn [k_st k_anc k_file length] in S. lia.
       + intros C. exfalso. apply (kterm_contra _ _ _ _ _ (Hclosed' C) N). reflexivity.
       + intros C. congruence.
       + intros Pe. destruct (Hpclean Pe) as [A B]. split; [exact A|].
@@ -454,10 +553,11 @@ Section FromPathCycleProofs.
       destruct (nth_error (k_ptasks st) t) as [[f anc [|[|g rest]| | | | |]]|] eqn:N; try discriminate.
       destruct (k_pcancel st) eqn:Pc; [|discriminate].
       injection Hs as <-.
-      destruct (set_same_pend _ _ (mkK f anc KCancel) _ N) as [S1 S2]; [reflexivity|].
+      destruct (set_same_pend _ _ (mkK f anc KCancel) _ N) as (S1 & S2 & S3); [reflexivity|cbn [k_st]; discriminate|cbn [k_st]; discriminate|].
       constructor; kred; auto.
       + intros x. rewrite <- (Hcount x). rewrite !count_occ_app, S1. reflexivity.
       + rewrite S2. exact Hcyc.
+      + rewrite S3. exact Hlen.
       + intros C. exfalso. apply (kterm_contra _ _ _ _ _ (Hclosed' C) N). reflexivity.
       + intros Pe. destruct (Hpclean Pe) as [A B]. congruence.
       + intros t' Ht'. inset Ht'; [cbn [k_st]; discriminate|auto].
@@ -488,7 +588,7 @@ Section FromPathCycleProofs.
       + intros x. rewrite kaddfail_app, kaddfail_first_cerr, app_nil_r. apply Hcount.
       + intros B. destruct (Hbfail B) as (f & Hf). exists f. apply in_or_app. auto.
       + intros e He. apply in_app_or in He. destruct He as [He|He]; [auto|].
-        apply in_first_cerr in He. destruct He as (f & -> & Hf). simpl. auto.
+        apply in_first_cerr in He. destruct He as (f & -> & Hf). cbn [werr_ok]. auto.
       + intros We. apply app_eq_nil in We. destruct We as [We _]. auto.
       + intros We _. apply app_eq_nil in We. destruct We as [_ We]. eapply first_cerr_nil; eassumption.
       + intros C. congruence.
@@ -520,7 +620,7 @@ Section FromPathCycleProofs.
         unfold cpend at 2 4 in S. simpl in S. simpl. destruct (Nat.eq_dec f x); lia.
       + intros D. exfalso. apply (cterm_contra _ _ _ _ (Hddone D) N). reflexivity.
       + intros _. exists f. apply in_or_app. right. left. reflexivity.
-      + intros e He. apply in_app_or in He. destruct He as [He|[<-|[]]]; [auto|]. simpl. exact Af.
+      + intros e He. apply in_app_or in He. destruct He as [He|[<-|[]]]; [auto|]. cbn [werr_ok]. exact Af.
       + intros Ce. destruct (Hcclean Ce) as [A B']. split; [exact A|].
         intros c' Hc'. inset Hc'; [simpl; split; discriminate|auto].
       + intros We. destruct (k_werrs st); discriminate.
@@ -548,6 +648,202 @@ Section FromPathCycleProofs.
       destruct (bstat_eqb (k_bld st) BRecv && dstat_eqb (k_disp st) DDone) eqn:C; [|discriminate].
       apply andb_true_iff in C. destruct C as [C1 C2]. apply bstat_eqb_eq in C1. apply dstat_eqb_eq in C2.
       injection Hs as <-; constructor; kred; auto; try discriminate.
+  Qed.
+
+  Lemma krun_kinv : forall root sched st, In root univ -> KInv root st -> KInv root (krun sched st).
+  Proof.
+    intros root sched st Hr. revert st. induction sched as [|l rest IH]; intros st HI; simpl; [assumption|].
+    apply IH. unfold PipeFromPathCycle.kstep_or_stay. destruct (kstep l st) eqn:S; [|assumption].
+    eapply kstep_kinv; eassumption.
+  Qed.
+
+  Lemma reachable_kinv : forall root sched, In root univ -> KInv root (krun sched (kinit root)).
+  Proof. intros. apply krun_kinv; [assumption|]. apply kinv_init. assumption. Qed.
+
+  (* ---------------------------------------------------------------- deadlock freedom, draining *)
+  Lemma in_klabels_p : forall st t l, t < length (k_ptasks st) ->
+    In l [KStart t; KSpawn t; KParsed t; KPush t; KObserve t] -> In l (klabels st).
+  Proof.
+    intros st t l Ht Hl. unfold klabels. apply in_or_app. left.
+    apply in_flat_map. exists t. split; [apply in_seq; lia | exact Hl].
+  Qed.
+
+  Lemma in_klabels_c : forall st c l, c < length (k_ctasks st) ->
+    In l [KCConv c; KCPush c; KCObserve c] -> In l (klabels st).
+  Proof.
+    intros st c l Hc Hl. unfold klabels. apply in_or_app. right. apply in_or_app. right.
+    apply in_flat_map. exists c. split; [apply in_seq; lia | exact Hl].
+  Qed.
+
+  Lemma in_klabels_g : forall st l, In l [KClose; KDEnd; KDRet; KBEnd] -> In l (klabels st).
+  Proof. intros st l Hl. unfold klabels. apply in_or_app. right. apply in_or_app. left. exact Hl. Qed.
+
+  (* with a builder that does not fail: a state in which some worker has not returned has an enabled
+     label - on every finite include graph, whatever fails in the parsers and in the conversion *)
+  Lemma kdeadlock_free : forall root st, KInv root st -> (forall f, abad f = false) ->
+    kfinished st = false -> exists l, In l (klabels st) /\ kenabled st l = true.
+  Proof.
+    intros root st HI Ha F.
+    destruct (forallb ktask_terminal (k_ptasks st)) eqn:PT.
+    2:{ destruct (forallb_false_nth _ _ _ PT) as (t & [f anc s] & N & Q).
+        pose proof (nth_error_lt _ _ _ _ N) as Lt.
+        destruct s as [|[|g rest]| | | | |]; try discriminate Q.
+        - exists (KStart t). split; [apply (in_klabels_p st t); simpl; auto|].
+          unfold PipeFromPathCycle.kenabled. simpl. rewrite N, Honce. simpl. destruct (memn f anc); reflexivity.
+        - exists (KParsed t). split; [apply (in_klabels_p st t); simpl; auto|].
+          unfold PipeFromPathCycle.kenabled. simpl. rewrite N. destruct (bad f); reflexivity.
+        - exists (KSpawn t). split; [apply (in_klabels_p st t); simpl; auto|].
+          unfold PipeFromPathCycle.kenabled. simpl. rewrite N. reflexivity.
+        - assert (D : k_disp st = DRecv).
+          { destruct (k_disp st) eqn:D; [reflexivity| |];
+              (assert (C : k_synclosed st = true) by (apply (Q_drain _ _ HI); rewrite D; discriminate));
+              pose proof (Q_closed _ _ HI C); congruence. }
+          exists (KPush t). split; [apply (in_klabels_p st t); simpl; auto 6|].
+          unfold PipeFromPathCycle.kenabled. simpl. rewrite N, D. reflexivity. }
+    destruct (k_synclosed st) eqn:SC.
+    2:{ exists KClose. split; [apply in_klabels_g; simpl; auto|].
+        unfold PipeFromPathCycle.kenabled. simpl. rewrite SC, PT. reflexivity. }
+    destruct (k_disp st) eqn:D.
+    - exists KDEnd. split; [apply in_klabels_g; simpl; auto|].
+      unfold PipeFromPathCycle.kenabled. simpl. rewrite D, SC. reflexivity.
+    - destruct (forallb ctask_terminal (k_ctasks st)) eqn:CT.
+      2:{ destruct (forallb_false_nth _ _ _ CT) as (c & [f s] & N & Q).
+          pose proof (nth_error_lt _ _ _ _ N) as Lt.
+          destruct s; try discriminate Q.
+          - exists (KCConv c). split; [apply (in_klabels_c st c); simpl; auto|].
+            unfold PipeFromPathCycle.kenabled. simpl. rewrite N. destruct (cbad f); reflexivity.
+          - assert (B : k_bld st = BRecv).
+            { destruct (k_bld st) eqn:B; [reflexivity| |].
+              - pose proof (Q_bdone _ _ HI B). congruence.
+              - destruct (Q_bfail _ _ HI B) as (f' & Hf'). pose proof (Q_werrs _ _ HI _ Hf') as G.
+                cbn [werr_ok] in G. rewrite Ha in G. discriminate. }
+            exists (KCPush c). split; [apply (in_klabels_c st c); simpl; auto|].
+            unfold PipeFromPathCycle.kenabled. simpl. rewrite N, B. simpl. destruct (abad f); reflexivity. }
+      exists KDRet. split; [apply in_klabels_g; simpl; auto|].
+      unfold PipeFromPathCycle.kenabled. simpl. rewrite D, CT. reflexivity.
+    - unfold kfinished in F. rewrite SC, D in F. simpl in F. apply negb_false_iff in F.
+      apply bstat_eqb_eq in F.
+      exists KBEnd. split; [apply in_klabels_g; simpl; auto 6|].
+      unfold PipeFromPathCycle.kenabled. simpl. rewrite F, D. reflexivity.
+  Qed.
+
+  Lemma kenabled_step : forall st l, kenabled st l = true -> exists st', kstep l st = Some st'.
+  Proof. intros st l H. unfold PipeFromPathCycle.kenabled in H. destruct (kstep l st) as [st'|]; [eauto|discriminate]. Qed.
+
+  Lemma kdrain_finishes_from : forall root fuel st, In root univ -> KInv root st ->
+    (forall f, abad f = false) -> kmu st <= fuel -> kfinished (kdrain fuel st) = true.
+  Proof.
+    intros root fuel st Hr. revert st. induction fuel as [|fuel IH]; intros st HI Ha Hm.
+    - simpl. destruct (kfinished st) eqn:F; [reflexivity|]. exfalso.
+      destruct (kdeadlock_free root st HI Ha F) as (l & _ & En).
+      destruct (kenabled_step st l En) as (st' & S).
+      pose proof (kstep_decreases l st st' (Q_valid _ _ HI) S). lia.
+    - simpl. destruct (kpick st) as [l|] eqn:P.
+      + unfold PipeFromPathCycle.kpick in P. apply find_some in P. destruct P as [_ En].
+        destruct (kenabled_step st l En) as (st' & S).
+        unfold PipeFromPathCycle.kstep_or_stay. rewrite S.
+        apply IH; auto; [eapply kstep_kinv; eassumption|].
+        pose proof (kstep_decreases l st st' (Q_valid _ _ HI) S). lia.
+      + destruct (kfinished st) eqn:F; [reflexivity|]. exfalso.
+        destruct (kdeadlock_free root st HI Ha F) as (l & Hin & En).
+        unfold PipeFromPathCycle.kpick in P. pose proof (find_none _ _ P l Hin). congruence.
+  Qed.
+
+  (* ---------------------------------------------------------------- outcomes *)
+  Lemma kfinished_spec : forall st, kfinished st = true ->
+    k_synclosed st = true /\ k_disp st = DDone /\ k_bld st <> BRecv.
+  Proof.
+    intros st F. unfold kfinished in F. apply andb_true_iff in F. destruct F as [F F3].
+    apply andb_true_iff in F. destruct F as [F1 F2]. apply dstat_eqb_eq in F2.
+    apply negb_true_iff in F3. repeat split; auto. intros B. rewrite B in F3. discriminate.
+  Qed.
+
+  (* all parser tasks have pushed their file: no visit is pending *)
+  Lemma terminal_kpend_nil : forall l, forallb ktask_terminal l = true ->
+    (forall t, In t l -> k_st t <> KFail /\ k_st t <> KCancel) -> (forall t, In t l -> k_st t <> KSkip) ->
+    flat_map kfiles l = [] /\ list_sum (map cycw l) = 0.
+  Proof.
+    induction l as [|[f anc s] l IH]; intros F L K; simpl in *; [auto|].
+    apply andb_true_iff in F. destruct F as [F1 F2].
+    destruct (IH F2 ltac:(intros; apply L; right; assumption) ltac:(intros; apply K; right; assumption)) as [A B].
+    rewrite A, B.
+    destruct (L (mkK f anc s) (or_introl eq_refl)) as [A' B']. pose proof (K (mkK f anc s) (or_introl eq_refl)) as C'.
+    simpl in A', B', C'. unfold ktask_terminal in F1. simpl in F1. unfold kfiles, cycw, kpend. simpl.
+    destruct s; try discriminate; try congruence; auto.
+  Qed.
+
+  (* when the parser stage has returned without an error, no visit of the graph closes a cycle *)
+  Lemma closed_clean_acyclic : forall root st, KInv root st -> k_synclosed st = true -> k_perrs st = [] ->
+    filter v_cyc (Wk [] root) = [] /\ flat_map kfiles (k_ptasks st) = [].
+  Proof.
+    intros root st HI SC Pe. destruct (Q_pclean _ _ HI Pe) as [_ Pl].
+    destruct (terminal_kpend_nil _ (Q_closed _ _ HI SC) Pl (Q_noskip _ _ HI)) as [A B]. split; [|exact A].
+    pose proof (Q_cyc _ _ HI) as C. rewrite B in C. destruct (filter v_cyc (Wk [] root)); [reflexivity|discriminate].
+  Qed.
+
+  (* FromPath returns without error: every visit is a simple path, and the file of every visit has
+     been parsed, converted and added to the builder exactly once - whatever the oracles are *)
+  Lemma kfinished_success : forall root st, KInv root st -> kfinished st = true -> k_werrs st = [] ->
+    Permutation (k_added st) (map snd (Wk [] root)) /\ filter v_cyc (Wk [] root) = [] /\
+    k_bld st = BDone /\ k_perrs st = [] /\ k_cerrs st = [] /\ k_pcancel st = false /\ k_ccancel st = false.
+  Proof.
+    intros root st HI F We. destruct (kfinished_spec st F) as (SC & D & B).
+    pose proof (Q_wparse _ _ HI We SC) as Pe. pose proof (Q_wconv _ _ HI We D) as Ce.
+    destruct (Q_pclean _ _ HI Pe) as [Pc Pl]. destruct (Q_cclean _ _ HI Ce) as [Cc Cl].
+    destruct (closed_clean_acyclic root st HI SC Pe) as [Ac Kn].
+    assert (BD : k_bld st = BDone).
+    { destruct (k_bld st) eqn:Bs; [congruence|reflexivity|].
+      destruct (Q_bfail _ _ HI Bs) as (f & Hf). rewrite We in Hf. contradiction. }
+    repeat split; auto.
+    apply (Permutation_count_occ Nat.eq_dec). intros x. rewrite <- (Q_count _ _ HI x).
+    rewrite We, Kn, (terminal_cpend_nil _ (Q_ddone _ _ HI D) Cl).
+    simpl. rewrite app_nil_r. reflexivity.
+  Qed.
+
+  (* a visit that closes a cycle makes some parser task fail, and with a builder that does not fail
+     the first error of the outer pool - which FromPath returns - is an error of the parser stage *)
+  Lemma kcycle_reported : forall root st, KInv root st -> (forall f, abad f = false) -> k_synclosed st = true ->
+    filter v_cyc (Wk [] root) <> [] ->
+    exists e rest, k_werrs st = e :: rest /\ parser_stage e = true /\ kgenuine bad cbad abad e = true.
+  Proof.
+    intros root st HI Ha SC Cy.
+    assert (Pe : k_perrs st <> []).
+    { intros Pe. destruct (closed_clean_acyclic root st HI SC Pe) as [Ac _]. contradiction. }
+    destruct (Q_wfirst _ _ HI SC Pe) as (pre & e & rest & E & Pg & Fa).
+    destruct pre as [|a pre].
+    - exists e, rest. split; [exact E|]. split; [exact Pg|].
+      apply (werr_ok_genuine root). apply (Q_werrs _ _ HI). rewrite E. left. reflexivity.
+    - exfalso. simpl in Fa. apply andb_true_iff in Fa. destruct Fa as [Fa _].
+      destruct a; try discriminate. pose proof (Q_werrs _ _ HI (KWAdd f)) as G. rewrite E in G.
+      specialize (G (or_introl eq_refl)). cbn [werr_ok] in G. rewrite Ha in G. discriminate.
+  Qed.
+
+  (* any failure is reported, and every reported error names a stage function that did fail *)
+  Lemma kfailure_reported : forall root st, KInv root st -> kfinished st = true ->
+    (exists t, In t (k_ptasks st) /\ k_st t = KFail) \/
+    (exists c, In c (k_ctasks st) /\ c_st c = CFail) \/ k_bld st = BFail ->
+    exists e rest, k_werrs st = e :: rest /\ kgenuine bad cbad abad e = true.
+  Proof.
+    intros root st HI F Hf. destruct (k_werrs st) as [|e rest] eqn:We.
+    - exfalso. destruct (kfinished_success root st HI F We) as (_ & _ & BD & Pe & Ce & _).
+      destruct Hf as [(t & Ht & Pt)|[(c & Hc & Pc)|Bf]].
+      + destruct (Q_pclean _ _ HI Pe) as [_ Pl]. destruct (Pl t Ht). congruence.
+      + destruct (Q_cclean _ _ HI Ce) as [_ Cl]. destruct (Cl c Hc). congruence.
+      + congruence.
+    - exists e, rest. split; [reflexivity|]. apply (werr_ok_genuine root). apply (Q_werrs _ _ HI). rewrite We. left. reflexivity.
+  Qed.
+
+  (* the number of parser tasks never exceeds the number of visits: every task accounts for its own *)
+  Lemma tlen_pos : forall t, 1 <= tlen t.
+  Proof.
+    intros [f anc s]. unfold tlen, kpend. cbn [k_st k_anc k_file]. destruct s; cbn [length]; try lia.
+    rewrite nB_length. lia.
+  Qed.
+
+  Lemma ktasks_bound : forall root st, KInv root st -> length (k_ptasks st) <= length (Wk [] root).
+  Proof.
+    intros root st HI. rewrite <- (Q_len _ _ HI). generalize (k_ptasks st) as l.
+    induction l as [|t l IH]; simpl; [lia|]. pose proof (tlen_pos t). lia.
   Qed.
   End CodeAsItIs.
 End FromPathCycleProofs.
